@@ -192,12 +192,13 @@ func HarnessC12_Sample() {
 		}
 		if vTier() == 1 && i == 0 {
 			// boundary sizes for the length field: fit within the length size
-			c := []int{0, 1, 2, 253, 254, 255}
+			// payload sizes; the NAL unit (header byte + payload) must fit the length field
+			c := []int{0, 1, 2, 252, 253, 254}
 			if lsm1 >= 1 {
-				c = append(c, 256, 65533, 65534, 65535)
+				c = append(c, 255, 256, 65533, 65534)
 			}
 			if lsm1 >= 2 {
-				c = append(c, 65536)
+				c = append(c, 65535, 65536)
 			}
 			n = c[vChoice(len(c))]
 		}
